@@ -11,6 +11,11 @@ for f in ("patch.diff", "demo_test.py"):
 agent = json.load(open(os.path.join(src, "meta.json")))
 ev = open(os.path.join(src, "eval.log")).read() if os.path.exists(os.path.join(src, "eval.log")) else ""
 res = re.findall(r"^RESULT .*$", ev, re.M)
+stable_log = os.path.join(src, "stable.log")
+stable_line = None
+if os.path.exists(stable_log):
+    m = re.findall(r"^.*\d+ passed.*$", open(stable_log).read(), re.M)
+    stable_line = m[-1].strip() if m else None
 meta = {
     "property": agent.get("property", sid.split("-")[0]),
     "summary": agent.get("summary"),
@@ -20,6 +25,7 @@ meta = {
         "how": "tools/seed_eval.sh in a fresh scratch worktree of /repo: demo with and without the patch, the stable tests "
                "(tests of /root/.vp/BASELINE.json that run offline) with the patch, then the listed checks with VERIF_REPO=<worktree>",
         "result_line": res[-1] if res else None,
+        "stable_tests_with_patch": stable_line or "(see result_line)",
         "agent_reported_stable": agent.get("stable_tests_summary_line") or agent.get("stable_tests_pass_with_patch"),
     },
     "caught_by": [c for c in caught.split(",") if c and c != "-"],
